@@ -622,7 +622,11 @@ def load(f, **options):  # type: (typing.IO, **typing.Any) -> canmatrix.CanMatri
                         split = line.split('//', 1)
                         comment = split[1].strip()
                         line = split[0].strip()
-                    frame.arbitration_id.id = int(line.split('=')[1].strip()[:-1], 16)
+                    id_text = line.split('=')[1].strip()
+                    if not id_text.endswith('h'):
+                        # a statement that was cut ("ID=12" for "ID=123h") is malformed, not another identifier
+                        raise ValueError("identifier '%s' is not a hexadecimal number followed by h" % id_text)
+                    frame.arbitration_id.id = int(id_text[:-1], 16)
                     frame.add_comment(comment)
                 elif line.startswith('Type'):
                     if line.split('=')[1][:8] == "Extended":
